@@ -15,7 +15,7 @@ MODES = ["auto", "relative", "absolute"]
 FEATURES = ["baseline", "def cells", "uncached cells", "allow_none on cells", "allow_none on space", "allow_none on model", "doc on model", "doc on space",
             "doc on def cells", "doc on lambda cells", "ref value kind", "object ref: own cells", "object ref: child space", "object ref: other space's cells",
             "inheritance", "param formula def", "param formula lambda with default", "input in cells", "input in ItemSpace", "nested space", "model-level ref",
-            "ref to model", "multi-line lambda", "def with default and annotation"]
+            "ref to model", "multi-line lambda", "def with default and annotation", "prefix-related member names, data on the longer one"]
 
 
 def build(feats, tag):
@@ -84,6 +84,24 @@ def build(feats, tag):
             A.rm = m
         elif f == 22:
             A.new_cells("ml", formula="lambda t: (t +\n        k +\n    1)")
+        elif f == 24:
+            # names that are string prefixes of each other: cells f / f2 / f_adj, spaces A / AB / A_2, refs k / k2
+            A.new_cells("f2", formula="lambda t: t + 2")
+            A.new_cells("f_adj", formula="lambda t: f(t) + 3")
+            if v % 3 == 0:
+                A.f_adj[0] = 50
+                A.f2[3] = 7
+            elif v % 3 == 1:
+                A.f2[1] = 9
+            AB = m.new_space("AB")
+            AB.new_cells("f", formula="lambda t: t * 11")
+            AB.f[5] = 1
+            A.new_space("A").new_cells("f", formula="lambda: 1")
+            A.k2 = (1, 2)
+            if v % 3 == 2:
+                A.formula = "lambda n: None"
+                A[1].f_adj[2] = 8
+                A[11].f[2] = 9
         elif f == 23:
             A.new_cells("ann", formula="def ann(t: int = 3, *, key=None) -> int:\n    \"\"\"doc\"\"\"\n    x = [i for i in range(t)]\n    return len(x)\n")
     return m
@@ -114,7 +132,7 @@ def _values(m, t):
     return out
 
 
-NVAR = {3: 2, 4: 2, 5: 2, 6: len(DOCS), 7: len(DOCS), 8: len(DOCS), 9: len(DOCS), 10: len(REFVALS), 11: 3, 12: 3, 13: 3, 14: 2, 15: 2, 18: 2, 20: len(REFVALS)}
+NVAR = {24: 3, 3: 2, 4: 2, 5: 2, 6: len(DOCS), 7: len(DOCS), 8: len(DOCS), 9: len(DOCS), 10: len(REFVALS), 11: 3, 12: 3, 13: 3, 14: 2, 15: 2, 18: 2, 20: len(REFVALS)}
 
 
 def _write_read(m, before, path, zipped, name):
@@ -218,7 +236,7 @@ def _parts(tier, seed):
             n = NVAR.get(f, 1)
             for lo in range(0, n, 3):
                 ps.append(dict(f1=f, f2=f, v2=0, chain=False, v1=[lo, min(lo + 2, n - 1)]))
-        ps += [dict(f1=a, f2=b, v2=0, v1=0, chain=True) for (a, b) in ((1, 14), (11, 12), (13, 21), (15, 18), (17, 19), (10, 20), (16, 2), (22, 23), (3, 5))]
+        ps += [dict(f1=a, f2=b, v2=0, v1=0, chain=True) for (a, b) in ((1, 14), (11, 12), (13, 21), (15, 18), (17, 19), (10, 20), (16, 2), (22, 23), (3, 5), (24, 17), (24, 18))]
         return ps
     return [dict(f1=a, f2=[lo, min(lo + 3, NF - 1)]) for a in range(NF) for lo in range(0, NF, 4)]
 
@@ -229,7 +247,7 @@ QUERIES = [
           natives=[dict(f1=a, v1=v, f2=b, v2=1, chain=c) for (a, v, b, z, c) in
                    ((0, 0, 0, False, False), (1, 0, 14, True, True), (6, 1, 7, False, True), (8, 1, 9, True, False), (10, 4, 20, False, False), (11, 0, 12, True, False),
                     (13, 1, 21, False, True), (15, 0, 18, True, False), (15, 1, 18, False, False), (16, 0, 17, False, True), (19, 0, 22, True, False), (23, 0, 2, False, False),
-                    (3, 0, 4, True, False), (5, 1, 10, False, False), (10, 8, 10, True, False), (10, 7, 0, False, False))],
+                    (3, 0, 4, True, False), (5, 1, 10, False, False), (10, 8, 10, True, False), (10, 7, 0, False, False), (24, 0, 24, True, False), (24, 1, 24, True, True), (24, 2, 24, False, False))],
           bounds=lambda tier: {"features": FEATURES, "docs": DOCS, "ref_values": [k for k, _ in REFVALS], "modes": MODES, "containers": ["dir", "zip"],
                                "combination": "each feature alone with all its variants + 9 pairs with chains (quick) / all ordered pairs of features (thorough)", "each_path": "write dir + zip, read both, compare descriptions, listings, values for t = 2; chain: dir->zip and zip->dir second generation"},
           outside=["arbitrary documentation / source text (only the menus)", "numpy / pandas values", "serializer versions < 6", "Excel / IOSpec data (C18)"]),
